@@ -528,6 +528,10 @@ class SimNet:
             if not dst._read_paused:
                 self._schedule_delivery(pipe)
             return
+        if dst._read_paused or pipe.held:
+            # a paused reader does not notice EOF either (the selector transport has
+            # removed its reader); resume_reading()/release reschedule the delivery
+            return
         if pipe.eof:
             if src._closing and not src._closed:
                 src._finish_close(None)
